@@ -3,6 +3,7 @@ import NutilsVerif.Proofs.C13Spec
 import NutilsVerif.Proofs.C13Lin
 import NutilsVerif.Proofs.C13Factor
 import NutilsVerif.Proofs.C13Degree
+import NutilsVerif.Proofs.C13Ravel
 /-!
 # C13 — argument manipulation commutes with evaluation: the theorems
 
@@ -18,7 +19,8 @@ argument values, all spellings of the specification*.  On the model (`Model/C13.
 * clause "linearize equals the directional derivative": `linearize_spec`, `linearize_hasDerivAt`,
   `linearize_first_order`, `linearize_tensor_direction`;
 * clause "factor(f) equals f for every argument value": `factor_sound`, `factor_sound_expr`,
-  `argument_degree_upper`.
+  `argument_degree_upper`; and its derivative lands on the right entries of an argument with any number of axes:
+  `monomial_ravel_spec`, `monomial_ravel_forward_lengths_counterexample`.
 -/
 namespace NutilsVerif.C13
 
@@ -204,6 +206,21 @@ theorem factor_sound_expr (I : String → List Rat → Rat) (vars : List Nat) (h
 theorem argument_degree_upper (x : Nat) (e : Expr Nat) (d : Nat) (h : Expr.argDegree x e = some d) :
     ∀ t ∈ Expr.toMPoly e, t.2.count x ≤ d :=
   Expr.argDegree_upper x e d h
+
+/-- **the derivative of a factored polynomial addresses the right entry of the argument.**  For an argument with any number
+(≥ 1) of axes of any lengths, the `while indices:` loop of `Monomial._derivative` turns the per-axis indices of a monomial
+factor into the row-major flat index of that entry in the raveled argument, and the stride product into the argument's size —
+what `Inflate(…, ravel_index, ravel_length)` followed by `unravel(…, arg.shape)` needs to be the scatter to entry `indices`. -/
+theorem monomial_ravel_spec (indices lengths : List Nat) (h : indices.length = lengths.length) (hne : lengths ≠ []) :
+    monomialRavel indices lengths = some (flatIdx lengths indices, shapeSize lengths) :=
+  monomialRavel_spec indices lengths h hne
+
+/-- walking the lengths from the first axis (while the indices are walked from the last) is a different function as soon as the
+argument has three axes whose first two lengths differ: entry (1,0,0) of a (2,3,2) argument is addressed as 4 instead of 6.
+(For ≤ 2 axes, or equal leading lengths, the two coincide: arguments with ≥ 3 axes of different lengths must be explored.) -/
+theorem monomial_ravel_forward_lengths_counterexample :
+    monomialRavelForwardLengths [1, 0, 0] [2, 3, 2] = some (4, 12) ∧ monomialRavel [1, 0, 0] [2, 3, 2] = some (6, 12) := by
+  decide
 
 /-! ## the hypotheses are satisfiable / the statements are not vacuous -/
 
